@@ -802,3 +802,37 @@ void parseFrame(void *frame, void *iface_ctx) {
             break;
     }
 }
+
+#ifdef D3VI1_LLTDRESPONDER_VERIF
+/* Verification hook: read-only view of one interface's record (state correspondence with the model). */
+typedef void (*lltd_verif_obs_fn)(void *arg, const void *node20);
+int lltd_verif_state_view(void *iface_ctx, unsigned long out[8], const uint8_t **mapper_real,
+                          const uint8_t **mapper_apparent, lltd_verif_obs_fn each, void *arg);
+int lltd_verif_state_view(void *iface_ctx, unsigned long out[8], const uint8_t **mapper_real,
+                          const uint8_t **mapper_apparent, lltd_verif_obs_fn each, void *arg) {
+    for (lltd_iface_state *cur = g_iface_states; cur != NULL; cur = cur->next) {
+        if (cur->iface_ctx != iface_ctx) {
+            continue;
+        }
+        unsigned long walked = 0;
+        for (probe_t *p = cur->see_list; p != NULL && walked < 100000UL; p = (probe_t *)p->nextProbe) {
+            if (each) {
+                each(arg, p);
+            }
+            walked++;
+        }
+        out[0] = cur->see_list_count;
+        out[1] = walked;
+        out[2] = cur->mapper_known;
+        out[3] = cur->mapper_seq;
+        out[4] = cur->mapper_gen_topology;
+        out[5] = cur->mapper_gen_quick;
+        out[6] = cur->small_icon != NULL;
+        out[7] = (unsigned long)cur->small_icon_size;
+        *mapper_real = cur->mapper_real.a;
+        *mapper_apparent = cur->mapper_apparent.a;
+        return 1;
+    }
+    return 0;
+}
+#endif
